@@ -346,4 +346,72 @@ class PowerScalar(Contract):
         return Power().apply(ex, args, kw, node)
 
 
-CONTRACTS = [CMultiply(), Multiply(), Square(), PowerScalar()]
+class ProdAlongAxis(Contract):
+    """_prod(a, axis) (the core of numpoly.prod): the product of the slices a[..., k, ...] along `axis`, in index order.
+    Proved for axis 0 and 1 (the index tuple (slice(None),)*axis + (k,) is built concretely), any extent >= 1."""
+    name, func, relpath, properties = "numpoly._prod", "_prod", "numpoly/array_function/prod.py", ("C10",)
+    positional = ("a", "axis")
+    assumptions = ("B6 (indexing all coefficient columns alike takes whole elements); contract of multiply (proved under C01)",
+                   "axis in {0, 1} enumerated; extent along the axis >= 1")
+
+    def _loops(self):
+        def inv(ex, env, k):
+            out = env["out"]
+            if not isinstance(out, Poly):
+                return [("accumulator", z3.BoolVal(False))]
+            g = ex.g
+            return [("shape", out.shape == g["S1"]),
+                    ("rows_storable", ex.ctx.forall_range(0, out.N, lambda t: keyok(out.row(t), out.D))),
+                    ("product_of_the_first_k_slices", ex.ctx.forall_idx(lambda j: out.val(j) == g["PP"](k + 1, j), g["S1"]))]
+
+        def havoc(ex, env, k):
+            ctx = ex.ctx
+            o = Poly(ctx, ctx.fresh("acc"), shape=ex.g["S1"], region=Region("fresh", "accumulator"))
+            ctx.assume(o.wf(ctx))
+            env["out"] = o
+        return {1: LoopSpec(inv, havoc, modifies=("out", "idx"))}
+
+    def cases(self):
+        for ax in (0, 1):
+            def make_env(ex, ax=ax):
+                from engine.polymodel import take_index, drop_axis, extent, imap, index_axioms
+                from engine.logic import ndim, PV
+                ctx = ex.ctx
+                ps = sym_polys(ex, 1)
+                for a_ in index_axioms(ctx):
+                    ctx.assume(a_)
+                A = ps[0]
+                ex.inputs = ps
+                S = A.shape
+                ctx.assume(z3.And(ndim(S) > ax, extent(S, ax) >= 1))
+                S1 = drop_axis(S, ax)
+                PP = ctx.func("PP", I, Idx, PV)
+                k, j = z3.Int(ctx.fresh("k")), z3.Const(ctx.fresh("j"), Idx)
+                sl = lambda k, j: A.val(imap(j, S, take_index(z3.IntVal(ax), k)))
+                ctx.assume(z3.ForAll([j], PP(1, j) == sl(0, j)))
+                ctx.assume(z3.ForAll([k, j], z3.Implies(k >= 1, PP(k + 1, j) == pmul(PP(k, j), sl(k, j))), patterns=[PP(k + 1, j)]))
+                ex.g = dict(S1=S1, PP=PP, ax=ax, n=extent(S, ax))
+                return {"a": A, "axis": ax}
+
+            def check(out, ax=ax):
+                ex, ctx = out.ex, out.ctx
+                g = ex.g
+                ex.oblige(f"raises.nothing[{out.exc}:{out.value}]" if out.kind == "raise" else "raises.nothing", z3.BoolVal(out.kind == "return"), "post")
+                if out.kind != "return":
+                    return
+                r = out.value
+                ok = isinstance(r, Poly)
+                ex.oblige("post.polynomial", z3.BoolVal(ok), "post")
+                if not ok:
+                    return
+                ex.oblige("post.shape_without_the_axis", r.shape == g["S1"], "post")
+                ex.oblige("post.value_is_the_product_of_all_slices_along_the_axis", ctx.forall_idx(
+                    lambda j: r.val(j) == g["PP"](g["n"], j), g["S1"]), "post",
+                    note="PP(1) = slice 0, PP(k+1) = PP(k) * slice k: every slice exactly once, in index order")
+            yield Case(f"axis={ax}", make_env, check, loops=self._loops())
+
+    def apply(self, ex, args, kw, node):
+        raise U("_prod as a callee", node)
+
+
+CONTRACTS = [CMultiply(), Multiply(), Square(), PowerScalar(), ProdAlongAxis()]
